@@ -9,11 +9,29 @@ where for<'a> &'a Self: EucRingOps<Self> {}
 
 impl<T> DivRound for T
 where T: Integer, for<'x> &'x T: IntOps<T> {
+    // Nearest integer to `self / q`, ties rounded away from zero.
     fn div_round(&self, q: &Self) -> Self {
-        let a = self.to_f64().unwrap();
-        let b = q.to_f64().unwrap();
-        let r = (a / b).round();
-        Self::from_f64(r).unwrap()
+        let quo = self / q; // truncated toward zero
+        let rem = self % q; // |rem| < |q|, sign follows `self`
+
+        if rem.is_zero() { 
+            return quo
+        }
+
+        // compare 2|rem| with |q| using non-positive representatives 
+        // (no overflow even if `q` is the minimum value).
+        let r = if rem.is_negative() { rem } else { -rem }; // -|rem|
+        let b = if q.is_negative() { q.clone() } else { -q }; // -|q|
+
+        if r <= &b - &r { // 2|rem| >= |q|
+            if self.is_negative() == q.is_negative() { 
+                quo + Self::one()
+            } else { 
+                quo - Self::one()
+            }
+        } else { 
+            quo
+        }
     }
 }
 
